@@ -441,7 +441,8 @@ class C06(Prop):
             'it has a query returning records after at least one mutation; distinct = distinct observed result lists')
     CORRESPONDENCE = ('Ref.step <-> plain Python reference store; Json.step <-> JSONDriver.{query,insert,update,replace,remove}; '
                       'Redis.step <-> RedisDriver.{…}; Api.replace <-> persist.replace; encodeVal/decodeVal <-> utils.json.dumps/loads; '
-                      'Mongo.idToDb/idFromDb <-> MongoDriver._id_to_db/_id_from_db')
+                      'Mongo.idToDb/idFromDb <-> MongoDriver._id_to_db/_id_from_db; Mongo.filtToDb/projToDb/sortToDb/recordToDoc/'
+                      'recordFromDoc <-> the engine calls MongoDriver.{query,insert,update,replace,remove} make on a recording client')
     TRUSTED = ['fakeredis / mongomock stand in for the servers; the Mongo driver has no Lean model (checked against the '
                'reference store only, outside the recorded engine-inherent classes)',
                'CPython json, float repr/parse, datetime strftime/strptime are environment (FloatText parameter of the model)',
@@ -635,6 +636,8 @@ class C06(Prop):
             return self._run_codec(case, driver)
         if case.get('kind') == 'ids':
             return self._run_ids(case, driver)
+        if case.get('kind') == 'xlate':
+            return self._run_xlate(case, driver)
         tags = set()
         w = self.wire
         probe = case.get('probe')                 # corpus witnesses of recorded findings: do not skip that class
@@ -931,6 +934,146 @@ class C06(Prop):
                                        real=self._j(real), model=self._j(model), where='Mongo.idToDb')
         key = repr(sorted(set(obs))) + str(len(case['ids'])) if len(set(case['ids'])) > 2 else None
         return fail, {'tags': sorted(tags), 'key': key, 'observed': obs}
+
+    # ---------------------------------------------------------------- translation cases (what mongo.py hands to the engine)
+    def _e(self, x):
+        import bson
+        if isinstance(x, bson.ObjectId):
+            return 'Y' + ','.join(str(b) for b in x.binary)
+        return 'J ' + self.wire.v(x)
+
+    def _cond(self, c):
+        if isinstance(c, dict):
+            parts = []
+            for op, w in c.items():
+                if isinstance(w, list):
+                    parts.append(' '.join([f'S{cps(op)}', f'M{len(w)}'] + [self._e(y) for y in w]))
+                else:
+                    parts.append(f'S{cps(op)} 1 ' + self._e(w))
+            return 'P ' + ' , '.join(sorted(parts))
+        return 'E ' + self._e(c)
+
+    def _filt(self, f):
+        return 'F ' + ' ; '.join(sorted(f'S{cps(k)} ' + self._cond(c) for k, c in f.items()))
+
+    def _doc(self, d):
+        return 'D ' + ' ; '.join(sorted(f'S{cps(k)} ' + self._e(v) for k, v in d.items()))
+
+    def _render_call(self, c):
+        op = c['op']
+        if op == 'q':
+            proj = 'R-' if c['proj'] is None else 'R ' + ' ; '.join(sorted(f'S{cps(k)} {v}' for k, v in c['proj'].items()))
+            sort = 'L ' + ' ; '.join(f'S{cps(f)} {d}' for f, d in c['sort'])
+            return ' | '.join(['ok q', self._filt(c['filt']), proj, sort, '-' if c['limit'] is None else str(c['limit'])])
+        if op == 'i':
+            return 'ok i | ' + self._doc(c['doc'])
+        if op == 'u':
+            return ' | '.join(['ok u', self._filt(c['filt']), self._doc(c['update'].get('$set', {}))]) + \
+                ('' if list(c['update']) == ['$set'] else ' | other-update-operators')
+        if op == 'p':
+            return ' | '.join(['ok p', self._e(c['filt'].get('_id')), self._doc(c['doc'])]) + \
+                ('' if list(c['filt']) == ['_id'] else ' | other-filter-keys')
+        if op == 'd':
+            return 'ok d | ' + self._filt(c['filt'])
+        return '?'
+
+    @staticmethod
+    def _canon_reply(rep):
+        """sort the dict-like parts of the model's rendering (F, D, R chunks; operators inside P)"""
+        parts = rep.split(' | ')
+        out = []
+        for part in parts:
+            tag = part[:2]
+            if tag in ('F ', 'D ', 'R '):
+                chunks = [c for c in part[2:].split(' ; ') if c]
+                if tag == 'F ':
+                    fixed = []
+                    for c in chunks:
+                        key, _, cond = c.partition(' ')
+                        if cond.startswith('P '):
+                            cond = 'P ' + ' , '.join(sorted(x for x in cond[2:].split(' , ') if x))
+                        fixed.append(key + ' ' + cond)
+                    chunks = fixed
+                out.append(tag + ' ; '.join(sorted(chunks)))
+            elif part in ('F', 'D', 'R'):
+                out.append(part + ' ')
+            else:
+                out.append(part)
+        return ' | '.join(out)
+
+    def _run_xlate(self, case, driver):
+        import pymongo
+        from harness.mongorec_c06 import RecClient
+        w = self.wire
+        driver.ask('begin ' + ('0 0 0 0 0 0 0 0' if self.unrepaired else '1 1 1 1 1 1 1 1'))
+        tags, fail, obs = set(), None, []
+        saved = pymongo.MongoClient
+        pymongo.MongoClient = RecClient
+        try:
+            drv = self.mdrv.MongoDriver()
+            self.loop.run_until_complete(drv.init())
+            client = RecClient.last
+            res = lambda t: f'nx{t}'  # noqa
+            for idx, raw in enumerate(case['ops']):
+                kind = raw[0]
+                if kind == 'reload':
+                    continue
+                if kind == 'insert':
+                    op = ['insert', raw[1], dec(raw[2], res), raw[3]]
+                elif kind == 'update':
+                    op = ['update', raw[1], dec(raw[2], res), dec(raw[3], res)]
+                elif kind == 'replace':
+                    op = ['replace', raw[1], dec(raw[2], res), dec(raw[3], res)]
+                elif kind == 'remove':
+                    op = ['remove', raw[1], dec(raw[2], res)]
+                else:
+                    op = ['query', raw[1], raw[2], dec(raw[3], res), raw[4], raw[5]]
+                if any(not isinstance(i, str) for i in _ids_of(op) if i is not None):
+                    tags.add('xlate:skipped-nonstring-id')
+                    continue
+                if kind == 'query' and op[2] == []:
+                    tags.add('skip:C06-mongo-degenerate-args')      # fields=[] is handed on as it is (recorded finding)
+                    continue
+                client.calls.clear()
+                # documents for _query_gen_wrapper: one with an ObjectId, one with a string id, one without _id
+                import bson
+                client.docs = [{'_id': bson.ObjectId('0123456789abcdef01234567'), 'n': idx}, {'n': 1, '_id': 'a"b'}, {'s': 'x'}]
+                got = None
+                try:
+                    R = self.loop.run_until_complete
+                    if kind == 'insert':
+                        R(drv.insert(op[1], op[2]))
+                    elif kind == 'update':
+                        R(drv.update(op[1], op[2], op[3]))
+                    elif kind == 'replace':
+                        R(drv.replace(op[1], op[2], op[3]))
+                    elif kind == 'remove':
+                        R(drv.remove(op[1], op[2]))
+                    else:
+                        got = list(R(drv.query(op[1], op[2], op[3], [tuple(x) for x in op[4]], op[5])))
+                    real = self._render_call(client.calls[0]) if len(client.calls) == 1 else f'{len(client.calls)} engine calls'
+                except Exception as e:  # noqa
+                    real = 'err'
+                model = driver.ask('mx ' + w.op(op))
+                model = 'err' if model.startswith('err') else self._canon_reply(model)
+                tags.add('xlate:' + kind + (':err' if real == 'err' else ''))
+                obs.append(real[:60])
+                if real != model:
+                    fail = fail or Failure('correspondence', f'op {idx} {self._show(op)}: mongo.py hands the engine {real!r}, '
+                                           f'the model {model!r}', real=real, model=model, where='Mongo.filtToDb/projToDb/sortToDb/recordToDoc')
+                    continue
+                if kind == 'query' and got is not None:
+                    exp = []
+                    for d in client.docs:
+                        rep = w.reply(driver.ask('mfrom ' + ' '.join(f'S{cps(k)} ' + self._e(v) for k, v in d.items())))
+                        exp.append(rep[1])
+                    if [canon(r) for r in got] != [canon(r) for r in exp]:
+                        fail = fail or Failure('correspondence', f'_query_gen_wrapper gives {got!r}, the model {exp!r}',
+                                               real=self._j(got), model=self._j(exp), where='Mongo.recordFromDoc')
+        finally:
+            pymongo.MongoClient = saved
+        key = repr(obs)[:300] if len(obs) > 2 else None
+        return fail, {'tags': sorted(tags), 'key': key, 'observed': obs[:10]}
 
     # ---------------------------------------------------------------- known findings
     def known_match(self, finding, case, failure):
